@@ -22,11 +22,11 @@ for sid in ids:
     prop = sid.split("-")[0]
     res = {"seeded": sid, "property": prop, "repo_head": sh("git log --format=%h -1", REPO).stdout.strip(), "checks": {}}
     r = sh("git apply %s || (git apply --3way %s && git reset -q)" % (patch, patch), REPO)
-    if sh("git diff --quiet", REPO).returncode == 0:
-        res["applies"] = False
-        print(sid, "PATCH DOES NOT APPLY", r.stderr[-200:])
+    if r.returncode != 0 or sh("git diff --quiet", REPO).returncode == 0:
+        # (a change written against an earlier tree that a later fix: commit rewrote: its recorded
+        # result, with the repo head it was obtained on, is kept)
+        print(sid, "PATCH DOES NOT APPLY to this tree; recorded result kept", r.stderr[-200:])
         sh("git reset -q --hard HEAD; git clean -fdq src tests", REPO)
-        json.dump(res, open(os.path.join(d, "result.json"), "w"), indent=1)
         continue
     res["applies"] = True
     try:
